@@ -12,8 +12,8 @@ IRFLAGS = ['-fno-vectorize', '-fno-slp-vectorize', '-mllvm', '-vectorize-loops=f
 FLAVOURS = {
     'rel': ['-O2', '-DNDEBUG'],
     'dbg': ['-O0'],
-    'san': ['-O1', '-DNDEBUG', '-fsanitize=undefined', '-fsanitize-trap=undefined', '-fno-sanitize=vptr,function'],
-    'dsan': ['-O0', '-fsanitize=undefined', '-fsanitize-trap=undefined', '-fno-sanitize=vptr,function'],
+    'san': ['-O1', '-DNDEBUG', '-fsanitize=undefined', '-fsanitize-trap=undefined', '-fno-sanitize=vptr,function,pointer-overflow,alignment'],
+    'dsan': ['-O0', '-fsanitize=undefined', '-fsanitize-trap=undefined', '-fno-sanitize=vptr,function,pointer-overflow,alignment'],
 }
 
 
